@@ -45,6 +45,8 @@ type c16Case struct {
 	Burst bool `json:"burst,omitempty"`
 	// Debug: AGEDEBUG=plugin is set (the client copies the conversation to standard error)
 	Debug bool `json:"debug,omitempty"`
+	// PlainWrap: the recipient machine is driven through Wrap (the age.Recipient method) instead of WrapWithLabels
+	PlainWrap bool `json:"plainWrap,omitempty"`
 }
 
 func (m pMsg) raw() string {
@@ -288,7 +290,7 @@ func c16Check(c c16Case, st *stats.Run) error {
 			nontrivial = true
 		}
 	}
-	labels := []string{"machine=" + c.Machine, fmt.Sprintf("ui=%d%d%d", c.UIMsg, c.UIReq, c.UIConfirm), fmt.Sprintf("steps=%d", len(c.Msgs)), fmt.Sprintf("model-abort=%v", want.Abort), fmt.Sprintf("unspecified=%v", want.Unspecified), fmt.Sprintf("burst=%v", c.Burst), fmt.Sprintf("agedebug=%v", c.Debug)}
+	labels := []string{"machine=" + c.Machine, fmt.Sprintf("ui=%d%d%d", c.UIMsg, c.UIReq, c.UIConfirm), fmt.Sprintf("steps=%d", len(c.Msgs)), fmt.Sprintf("model-abort=%v", want.Abort), fmt.Sprintf("unspecified=%v", want.Unspecified), fmt.Sprintf("burst=%v", c.Burst), fmt.Sprintf("agedebug=%v", c.Debug), fmt.Sprintf("plain-wrap=%v", c.PlainWrap)}
 	for _, m := range c.Msgs {
 		labels = append(labels, "cmd="+m.Cmd)
 	}
@@ -320,14 +322,22 @@ func c16Check(c c16Case, st *stats.Run) error {
 				cerr = err
 				return
 			}
-			gotStanzas, gotLabels, cerr = r.WrapWithLabels(c16FileKey)
+			if c.PlainWrap {
+				gotStanzas, cerr = r.Wrap(c16FileKey)
+			} else {
+				gotStanzas, gotLabels, cerr = r.WrapWithLabels(c16FileKey)
+			}
 		case "identity-as-recipient":
 			id, err := plugin.NewIdentity(plugin.EncodeIdentity("sim", []byte("identity data")), ui)
 			if err != nil {
 				cerr = err
 				return
 			}
-			gotStanzas, gotLabels, cerr = id.Recipient().WrapWithLabels(c16FileKey)
+			if c.PlainWrap {
+				gotStanzas, cerr = id.Recipient().Wrap(c16FileKey)
+			} else {
+				gotStanzas, gotLabels, cerr = id.Recipient().WrapWithLabels(c16FileKey)
+			}
 		default:
 			id, err := plugin.NewIdentity(plugin.EncodeIdentity("sim", []byte("identity data")), ui)
 			if err != nil {
@@ -434,7 +444,7 @@ func c16Check(c c16Case, st *stats.Run) error {
 		}
 	}
 	sortedEq := func(a, b []string) bool { return strings.Join(a, "\x00") == strings.Join(b, "\x00") }
-	if !sortedEq(gotLabels, want.Labels) {
+	if !c.PlainWrap && !sortedEq(gotLabels, want.Labels) {
 		return pbt.Failf("C16/wrong-result", "labels %v, plugin sent %v", gotLabels, want.Labels)
 	}
 	return nil
@@ -775,7 +785,7 @@ func TestC16(t *testing.T) {
 			for _, machine := range []string{"recipient", "identity"} {
 				for _, ui := range []int{0, 1, 2} {
 					if s.Mine(n) {
-						yield(c16Case{Machine: machine, Msgs: append([]pMsg{}, prefix...), UIMsg: ui, UIReq: ui, UIConfirm: ui, ConfirmYes: n%2 == 0, NStanzas: 1 + n%3, Burst: n%4 == 1, Debug: n%10 == 3})
+						yield(c16Case{Machine: machine, Msgs: append([]pMsg{}, prefix...), UIMsg: ui, UIReq: ui, UIConfirm: ui, ConfirmYes: n%2 == 0, NStanzas: 1 + n%3, Burst: n%4 == 1, Debug: n%10 == 3, PlainWrap: machine != "identity" && n%5 == 2})
 					}
 					n++
 				}
@@ -848,6 +858,7 @@ func TestC16(t *testing.T) {
 		c.NStanzas = rapid.IntRange(1, 4).Draw(t, "nst")
 		c.Burst = rapid.IntRange(0, 3).Draw(t, "burst") == 0
 		c.Debug = rapid.IntRange(0, 5).Draw(t, "agedebug") == 0
+		c.PlainWrap = c.Machine != "identity" && rapid.IntRange(0, 3).Draw(t, "plainwrap") == 0
 		return c
 	}, check)
 }
